@@ -16,6 +16,15 @@ import JanetModel.Gen.Int64
 namespace JanetModel.Int64
 open JanetModel.Gen.Int64
 
+/-- what a looping division method does with a zero divisor: `DIVZERO(name)` / `DIVZERO_NEXT(name)` inside the `for` -/
+inductive ZeroAct where
+  | error     -- janet_panic("division by zero")
+  | ret       -- return janet_wrap_abstract(box): the call ends with the value computed so far
+  | cont      -- continue: x mod 0 = x, go on with the next operand
+  deriving DecidableEq, Repr
+
+def zeroActOf (s : String) : ZeroAct := if s == "return" then .ret else if s == "continue" then .cont else .error
+
 /-- what the translator found in the source -/
 structure Cfg where
   guardDiv : Bool      -- DIVMETHOD_SIGNED          (`/`, `%`)
@@ -27,18 +36,22 @@ structure Cfg where
   cmpSUpperIncl : Bool -- compare_int64_double:  `y >= (double) INT64_MAX` (true) or `y >` (false)
   cmpSLowerIncl : Bool -- compare_int64_double:  `y <= (double) INT64_MIN` (true) or `y <` (false)
   cmpUUpperIncl : Bool -- compare_uint64_double: `y >= (double) UINT64_MAX` (true) or `y >` (false)
+  loopZeroMod : ZeroAct := .cont   -- DIVMETHOD(uint64_t, u64, mod, %): zero divisor inside the loop
+  s64BelowU64 : Bool := false  -- `&janet_s64_type < &janet_u64_type` (link order; read by the harness, not in the source):
+                               -- the primitive order `janet_compare` puts between an s64 and a u64
   deriving DecidableEq, Repr
 
 /-- the current source tree -/
 def cfgGen : Cfg :=
   { guardDiv := guardDivMethodSigned, guardDivi := guardDivMethodInvertSigned, guardDivf := guardDivf,
     guardDivfi := guardDivfi, guardMod := guardMod, guardModi := guardModi,
-    cmpSUpperIncl := cmpS64UpperInclusive, cmpSLowerIncl := cmpS64LowerInclusive, cmpUUpperIncl := cmpU64UpperInclusive }
+    cmpSUpperIncl := cmpS64UpperInclusive, cmpSLowerIncl := cmpS64LowerInclusive, cmpUUpperIncl := cmpU64UpperInclusive,
+    loopZeroMod := zeroActOf loopZeroMod }
 
 /-- the pinned tree e691f18 (for the counterexample theorems, independent of regeneration) -/
 def cfgPinned : Cfg :=
   { guardDiv := true, guardDivi := true, guardDivf := false, guardDivfi := false, guardMod := false, guardModi := false,
-    cmpSUpperIncl := false, cmpSLowerIncl := false, cmpUUpperIncl := false }
+    cmpSUpperIncl := false, cmpSLowerIncl := false, cmpUUpperIncl := false, loopZeroMod := .ret }
 
 /-- every signed `/` and `%` is protected -/
 def Cfg.allGuarded (c : Cfg) : Bool :=
@@ -58,7 +71,7 @@ inductive Val where
   | bool (b : Bool)
   | nil
   | bytes (bs : List Nat)   -- a buffer (result of int/to-bytes)
-  | unspec                  -- result depends on link order (primitive order of s64 against u64)
+  | unspec                  -- (unused since the link order became a `Cfg` field)
   deriving DecidableEq, Repr
 
 def Val.box : Kind → Int → Val
@@ -274,21 +287,32 @@ def callCfun2 (c : Cfg) (k : Kind) (cfun : String) (a0 a1 : Val) : Res Val :=
     | _ => .err .nomethod
 
 /-- The loop of OPMETHOD / DIVMETHOD / DIVMETHOD_SIGNED over `argv[1..]`: `box` is updated operand by operand; an error
-    (operand does not convert, division by zero) or undefined operation ends the call; `DIVZERO_mod` *returns* the box
-    computed so far. -/
-def methodLoop (k : Kind) (stepOp : Int → Int → Res Int) (zeroReturns : Bool) : Int → List Val → Res Int
+    (operand does not convert, division by zero) or undefined operation ends the call.  `zero` = what the macro does when
+    the operand is 0 *before* the operation (`none` for OPMETHOD, which has no such test): see `ZeroAct`. -/
+def methodLoop (k : Kind) (stepOp : Int → Int → Res Int) (zero : Option ZeroAct) : Int → List Val → Res Int
   | box, [] => .ok box
   | box, v :: rest =>
     match unwrap k v with
     | .ok b =>
-      if zeroReturns && b = 0 then .ok box
+      if zero.isSome && b = 0 then
+        (match zero with
+         | some .error => .err .divzero
+         | some .ret => .ok box
+         | _ => methodLoop k stepOp zero box rest)
       else
         (match stepOp box b with
-         | .ok box' => methodLoop k stepOp zeroReturns box' rest
+         | .ok box' => methodLoop k stepOp zero box' rest
          | .err e => .err e
          | .ub => .ub)
     | .err e => .err e
     | .ub => .ub
+
+/-- the zero action of the loop macro instantiated with `name` (div / rem: regenerated; mod: `Cfg`, regenerated in `cfgGen`) -/
+def loopZero (c : Cfg) (name : String) : ZeroAct :=
+  match name with
+  | "div" => zeroActOf loopZeroDiv
+  | "rem" => zeroActOf loopZeroRem
+  | _ => c.loopZeroMod
 
 /-- Call `cfun_it_<cfun>` with any number of arguments (`janet_arity(argc, 2, -1)` for the three looping macros,
     `janet_fixarity` for everything else). -/
@@ -302,15 +326,13 @@ def callCfunN (c : Cfg) (k : Kind) (cfun : String) (args : List Val) : Res Val :
        match mac with
        | "OPMETHOD" => do
            let a ← unwrap k a0
-           let r ← methodLoop k (opMethod k oper) false a (a1 :: rest); pure (Val.box k r)
+           let r ← methodLoop k (opMethod k oper) none a (a1 :: rest); pure (Val.box k r)
        | "DIVMETHOD" => do
            let a ← unwrap k a0
-           let zr := (match name with | "div" => !divzeroErrorsDiv | "rem" => !divzeroErrorsRem | _ => !divzeroErrorsMod)
-           let r ← methodLoop k (divMethodU name oper) zr a (a1 :: rest); pure (Val.box k r)
+           let r ← methodLoop k (divMethodU name oper) (some (loopZero c name)) a (a1 :: rest); pure (Val.box k r)
        | "DIVMETHOD_SIGNED" => do
            let a ← unwrap k a0
-           let zr := (match name with | "div" => !divzeroErrorsDiv | "rem" => !divzeroErrorsRem | _ => !divzeroErrorsMod)
-           let r ← methodLoop k (divMethodS c.guardDiv name oper) zr a (a1 :: rest); pure (Val.box k r)
+           let r ← methodLoop k (divMethodS c.guardDiv name oper) (some (loopZero c name)) a (a1 :: rest); pure (Val.box k r)
        | _ => .err .arity
      | none => .err .arity)
   | _ => .err .arity
@@ -423,7 +445,8 @@ def bitop32 (unsigned : Bool) (oper : String) (b1 b2 : Nat) : Res Val :=
       | some v => .ok (Val.ofInt v)
       | none => .err .nomethod
 
-/-- `janet_compare` restricted to the value kinds considered (`none` = depends on link order) -/
+/-- `janet_compare` restricted to the value kinds considered.  Two abstracts of different types are ordered by the
+    addresses of their type descriptors (`janet_compare_abstract`: `xt > yt ? 1 : -1`), whatever their contents. -/
 def typeRank : Val → Nat
   | .num _ => 0 | .nil => 1 | .bool _ => 2 | .str _ => 4 | .bytes _ => 11 | .s64 _ => 14 | .u64 _ => 14 | .unspec => 15
 
@@ -433,20 +456,20 @@ def strCompare : List Nat → List Nat → Int
   | _ :: _, [] => 1
   | a :: as, b :: bs => if a < b then -1 else if a > b then 1 else strCompare as bs
 
-def janetCompare (x y : Val) : Option Int :=
-  if typeRank x ≠ typeRank y then some (if typeRank x < typeRank y then -1 else 1)
+def janetCompare (c : Cfg) (x y : Val) : Int :=
+  if typeRank x ≠ typeRank y then (if typeRank x < typeRank y then -1 else 1)
   else
     match x, y with
     | .num a, .num b =>
       let dx := decode a; let dy := decode b
-      some (if dx.eq dy then 0 else if dx.lt dy then -1 else 1)
-    | .str a, .str b => some (strCompare a b)
-    | .s64 a, .s64 b => some (cmp3 a b)
-    | .u64 a, .u64 b => some (cmp3 a b)
-    | .s64 _, .u64 _ => none
-    | .u64 _, .s64 _ => none
-    | .bool a, .bool b => some (cmp3 (if a then 1 else 0) (if b then 1 else 0))
-    | _, _ => some 0
+      (if dx.eq dy then 0 else if dx.lt dy then -1 else 1)
+    | .str a, .str b => strCompare a b
+    | .s64 a, .s64 b => cmp3 a b
+    | .u64 a, .u64 b => cmp3 a b
+    | .s64 _, .u64 _ => if c.s64BelowU64 then -1 else 1
+    | .u64 _, .s64 _ => if c.s64BelowU64 then 1 else -1
+    | .bool a, .bool b => cmp3 (if a then 1 else 0) (if b then 1 else 0)
+    | _, _ => 0
 
 /-- `janet_equals` -/
 def janetEquals (x y : Val) : Bool :=
@@ -486,10 +509,9 @@ def vmOp (c : Cfg) (N : NumOps) (template oper : String) (x y : Val) : Res Val :
        .ok (.bool (match oper with
                    | "<" => dx.lt dy | "<=" => dx.le dy | ">" => dx.gt dy | ">=" => dx.ge dy | _ => false))
      | _, _ =>
-       match janetCompare x y with
-       | none => .ok .unspec
-       | some r => .ok (.bool (match oper with
-                               | "<" => r < 0 | "<=" => r ≤ 0 | ">" => r > 0 | ">=" => r ≥ 0 | _ => false)))
+       let r := janetCompare c x y
+       .ok (.bool (match oper with
+                   | "<" => r < 0 | "<=" => r ≤ 0 | ">" => r > 0 | ">=" => r ≥ 0 | _ => false)))
   | _ => .err .nomethod
 
 /-- JOP_BNOT: `janet_wrap_integer(~janet_unwrap_integer(op))` on numbers — the double -> int32 cast is *unchecked*
@@ -511,7 +533,7 @@ def vmOpOf (opcode : String) : Option (String × String) :=
 
 /-- boot.janet `compare` -/
 def polyCompare (c : Cfg) (x y : Val) : Res Val :=
-  let viaCmp : Res Val := match janetCompare x y with | some r => .ok (Val.ofInt r) | none => .ok .unspec
+  let viaCmp : Res Val := .ok (Val.ofInt (janetCompare c x y))
   let tryRight : Res Val :=
     match methodOf y "compare" with
     | none => viaCmp
@@ -545,9 +567,36 @@ def comparatorLoop (step : Val → Val → Res Val) (invert : Bool) : Val → Li
     match step last next with
     | .ok (.bool true) => comparatorLoop step invert next rest
     | .ok (.bool false) => .ok (.bool invert)
-    | .ok v => .ok v          -- `.unspec`
+    | .ok v => .ok v          -- not a boolean: cannot happen with the steps used
     | .err e => .err e
     | .ub => .ub
+
+/-- one comparator applied to two values (`vm_compop` / `janet_equals`), by the corelib opcode of the comparator -/
+def cmpStep (c : Cfg) (N : NumOps) (opcode : String) : Val → Val → Res Val :=
+  if opcode == "JOP_EQUALS" then fun a b => .ok (.bool (janetEquals a b))
+  else match vmOpOf opcode with
+       | some (tmpl, oper) => fun a b => vmOp c N tmpl oper a b
+       | none => fun _ _ => .err .nomethod
+
+/-- boot.janet `compare-reduce` (`compare<`, `compare<=`, `compare=`, `compare>`, `compare>=`): `x` is the last value that
+    passed; for each next `y`: `(if (op (do-compare x y) 0) (set x y) (do (set res false) (break)))` -/
+def compareReduce (c : Cfg) (N : NumOps) (opcode : String) : Val → List Val → Res Val
+  | _, [] => .ok (.bool true)
+  | x, y :: rest =>
+    match polyCompare c x y with
+    | .ok r =>
+      (match cmpStep c N opcode r (Val.ofInt 0) with
+       | .ok (.bool true) => compareReduce c N opcode y rest
+       | .ok (.bool false) => .ok (.bool false)
+       | .ok v => .ok v
+       | .err e => .err e
+       | .ub => .ub)
+    | .err e => .err e
+    | .ub => .ub
+
+/-- the primitive comparator each polymorphic one is built on -/
+def polyComparators : List (String × String) :=
+  [("compare<", "<"), ("compare<=", "<="), ("compare=", "="), ("compare>", ">"), ("compare>=", ">=")]
 
 /-- `int/to-bytes x :le`: the 8 bytes of the box (memcpy on a little-endian machine), least significant first -/
 def toBytesLE (v : Int) : List Nat := (List.range 8).map (fun i => ((wrapU v) / 256 ^ i % 256).toNat)
@@ -570,7 +619,7 @@ def evalFn (c : Cfg) (N : NumOps) (fn : String) (args : List Val) : Res Val :=
      | .u64 v => .ok (.bytes (toBytesLE v).reverse)
      | _ => .err .tobytestype)
   | "compare", [x, y] => polyCompare c x y
-  | "cmp", [x, y] => (match janetCompare x y with | some r => .ok (Val.ofInt r) | none => .ok .unspec)
+  | "cmp", [x, y] => .ok (Val.ofInt (janetCompare c x y))
   | "bnot", [x] => vmBnot x
   | "int/s64", [x] => (unwrapS x).bind (fun v => .ok (.s64 v))
   | "int/u64", [x] => (unwrapU x).bind (fun v => .ok (.u64 v))
@@ -580,6 +629,12 @@ def evalFn (c : Cfg) (N : NumOps) (fn : String) (args : List Val) : Res Val :=
      | .u64 v => if v > intMaxInt64 then .err .tonum else .ok (Val.ofInt v)
      | _ => .err .tonumtype)
   | _, _ =>
+    match polyComparators.lookup fn, args with
+    | some prim, x :: rest =>
+      (match coreFns.find? (fun r => r.1 == prim) with
+       | some (_, _, opcode, _, _) => compareReduce c N opcode x rest
+       | none => .err .nomethod)
+    | _, _ =>
     match coreFns.find? (fun r => r.1 == fn) with
     | none => .err .nomethod
     | some (_, kind, opcode, nullary, unary) =>
@@ -593,12 +648,7 @@ def evalFn (c : Cfg) (N : NumOps) (fn : String) (args : List Val) : Res Val :=
         match args with
         | [] => .err .arity
         | x :: rest =>
-          let step : Val → Val → Res Val :=
-            if opcode == "JOP_EQUALS" then fun a b => .ok (.bool (janetEquals a b))
-            else match vmOpOf opcode with
-                 | some (tmpl, oper) => fun a b => vmOp c N tmpl oper a b
-                 | none => fun _ _ => .err .nomethod
-          comparatorLoop step (nullary != 0) x rest
+          comparatorLoop (cmpStep c N opcode) (nullary != 0) x rest
 
 /-- `(:name a0 a1 ...)`: method call through a keyword (`resolve_method`, then the cfunction with all arguments) -/
 def methodCall (c : Cfg) (name : String) (args : List Val) : Res Val :=
